@@ -407,11 +407,96 @@ def _full_invoke(sub):
     return st.lists(arg, max_size=3).map(lambda a: ["INV", "echo", "f", a])
 
 
+# ------------------------------------------------- calls in name position
+NAME_LIB = {
+    "ta": {"body": [["T", "tb"]], "wrapper": "plain", "junk": ""},
+    "tb": {"body": [["T", "B["], ["P", "1", [["T", ""]]], ["T", "]"]],
+           "wrapper": "plain", "junk": ""},
+    "Tc": {"body": [["T", "nope"]], "wrapper": "plain", "junk": ""},
+    "te": {"body": [["T", "t"]], "wrapper": "plain", "junk": ""},
+}
+_SP = ["T", " "]   # four braces in a row are a different construct
+NAME_SEQS = [
+    [_SP, ["C", "ta", []], _SP],                          # -> tb
+    [_SP, ["C", "Tc", []], _SP],                          # -> nope (missing)
+    [_SP, ["C", "te", []], ["T", "b"]],                   # -> tb, half computed
+    [["T", "t"], ["C", [_SP, ["C", "Tc", []], _SP], []]],  # t + missing link
+    [_SP, ["IF", [["T", "1"]], [["T", "tb"]], None], _SP],
+    [_SP, ["IF", [["T", ""]], [["T", "x"]], [["T", "Tc"]]], _SP],
+    # name of a name: -> ta -> tb
+    [_SP, ["C", [_SP, ["C", "te", []], ["T", "a"]], []], _SP],
+]
+NAME_SELECTIONS = [None, [], ["ta"], ["tb"], ["ta", "tb"], ["ta", "te"],
+                   ["Tc"], ["ta", "tb", "Tc", "te"]]
+
+
+def name_position_cases():
+    """A call whose name part is produced by a call / parser function, under
+    every selection: the inner construct is expanded or kept by the same rule
+    as anywhere else, and the outer call is looked up under the resulting
+    name."""
+    for nseq in NAME_SEQS:
+        for args in ([], [["pos", [["T", "x"]]]],
+                     [["named", "1", [["C", "ta", []]], ["", "", "", ""]]]):
+            page = [["T", "a"], ["C", nseq, args], ["T", "z"]]
+            for sel in NAME_SELECTIONS:
+                for pfn_on in (True, False):
+                    for hook in (None, "marker"):
+                        conf = {
+                            "pre_expand": sel is not None, "to_expand": sel,
+                            "not_expand": None, "flags": [],
+                            "expand_parserfns": pfn_on or sel is None,
+                            "expand_invoke": True, "template_fn": hook,
+                            "post_template_fn": None,
+                            "mark_names": ["ta", "tb"], "mark_mod": 1}
+                        yield NAME_LIB, page, conf
+
+
+def name_shard(idx, nshards, known):
+    env.setup()
+    part = Part()
+    buckets = {}
+    for j, (lib, page, conf) in enumerate(name_position_cases()):
+        if j % nshards != idx:
+            continue
+        if not conf["expand_parserfns"] and any(
+                x[0] == "IF" for x in page[1][1] if isinstance(x, list)):
+            # a switched-off parser function in name position is written
+            # back verbatim; the name is then not a template name at all
+            part.excluded["name-position: parser function switched off"] += 1
+            continue
+        status, detail, it, text = run_case(lib, page, conf)
+        if status == "ood":
+            part.excluded["ood"] += 1
+            continue
+        part.case(h(["name-position", page, conf]), conf["pre_expand"],
+                  classes=["name-position"] + (
+                      ["name-position:reemitted"]
+                      if it.stats.get("reemitted") else []),
+                  sample={"page": text, "conf": conf})
+        if status == "viol":
+            sig, what = detail
+            sig = dict(sig, stage="name-position")
+            if any(sig_matches(k["signature"], sig) for k in known):
+                part.excluded["known"] += 1
+                continue
+            key = h(sig)
+            if key not in buckets or len(text) < buckets[key][3]:
+                buckets[key] = (sig, what, {"lib": lib, "page": page,
+                                            "conf": conf}, len(text))
+    for sig, what, rep, _ in buckets.values():
+        part.violation(sig, what, rep)
+    return part.to_dict()
+
+
 def run(run):
     procs = par.nprocs(run.tier)
     shards, n = (procs, 400) if run.tier == "quick" else (16, 25000)
     for d in par.map_shards(shard, [(i, run.seed, n, run.known)
                                     for i in range(shards)], procs):
+        run.merge(d)
+    for d in par.map_shards(name_shard, [(i, procs, run.known)
+                                         for i in range(procs)], procs):
         run.merge(d)
     n_id = 150 if run.tier == "quick" else 6000
     for d in par.map_shards(identity_shard,
@@ -419,6 +504,9 @@ def run(run):
                              for i in range(procs)], procs):
         run.merge(d)
     run.rule = (
+        "Name-position stage: calls whose name part is produced by a call, a "
+        "parser function or a call with a computed name, x every selection x "
+        "switches x hook, against the reference. "
         "Identity stage: with nothing selected (pre_expand, no flags, "
         "expand_parserfns / expand_invoke off) the output equals the input up "
         "to blanks and holds no placeholder character - every kept-call kind x "
